@@ -655,7 +655,7 @@ def _bots(stmts):
 
 
 def gen_cases(rng, tier):
-    n_prog = 170 if tier == "quick" else 5000
+    n_prog = 170 if tier == "quick" else 4000
     cases = []
     for i in range(n_prog):
         flows = g_program(rng, tier)
